@@ -34,11 +34,11 @@
 //!     identical signed octets => verification must still succeed.
 use bytes::Bytes;
 use domain::base::cmp::CanonicalOrd;
-use domain::base::iana::{Class, DigestAlgorithm, Rtype, SecurityAlgorithm};
+use domain::base::iana::{DigestAlgorithm, Rtype, SecurityAlgorithm};
 use domain::base::name::{FlattenInto, Name, ParsedName, ToName};
 use domain::base::rdata::ComposeRecordData;
 use domain::base::{Message, Record, RecordData, Ttl};
-use domain::crypto::sign::{KeyPair, SecretKeyBytes, SignRaw};
+use domain::crypto::sign::{KeyPair, SecretKeyBytes};
 use domain::dnssec::sign::keys::signingkey::SigningKey;
 use domain::dnssec::sign::records::{Rrset, SortedRecords};
 use domain::dnssec::sign::signatures::rrsigs::{
@@ -201,12 +201,6 @@ impl RawRR {
         }
         v
     }
-    fn has_upper_rdata_name(&self) -> bool {
-        self.fields.iter().any(|f| match f {
-            F::N(n) => n.iter().any(|l| l.iter().any(|b| b.is_ascii_uppercase())),
-            _ => false,
-        })
-    }
     fn json(&self) -> Value {
         json!({"owner": name_text(&self.owner), "type": self.rtype, "class": self.class, "ttl": self.ttl, "rdata": hex(&self.rdata_plain())})
     }
@@ -329,9 +323,23 @@ impl SigF {
 /// an owner (RFC 4035 §5.3.2: such an RRSIG must not be used; no octets are
 /// defined).
 fn ref_octets(s: &SigF, rrs: &[RawRR], open_lower: bool) -> Option<Vec<u8>> {
+    let (mut out, mut items) = ref_parts(s, rrs, open_lower, false)?;
+    // §6.3: RDATA as left-justified unsigned octet sequences; absence of an
+    // octet sorts before a zero octet == slice order of [u8].
+    items.sort();
+    items.dedup();
+    for (_, it) in items {
+        out.extend_from_slice(&it);
+    }
+    Some(out)
+}
+
+/// RRSIG_RDATA prefix and the RR(i) items (canonical RDATA, whole item), in
+/// the order given, duplicates kept. `no_lower` builds the items WITHOUT the
+/// §6.2 lower-casing of RDATA names (only used to diagnose a mismatch).
+fn ref_parts(s: &SigF, rrs: &[RawRR], open_lower: bool, no_lower: bool) -> Option<(Vec<u8>, Vec<(Vec<u8>, Vec<u8>)>)> {
     let mut out = s.head();
     out.extend_from_slice(&name_wire(&lower_labels(&s.signer)));
-    // (canonical rdata, full RR(i)) pairs
     let mut items: Vec<(Vec<u8>, Vec<u8>)> = Vec::new();
     for rr in rrs {
         let n = rr.owner.len();
@@ -347,7 +355,7 @@ fn ref_octets(s: &SigF, rrs: &[RawRR], open_lower: bool) -> Option<Vec<u8>> {
         } else {
             name.extend_from_slice(&name_wire(&low));
         }
-        let rd = rr.rdata_canon(open_lower);
+        let rd = if no_lower { rr.rdata_plain() } else { rr.rdata_canon(open_lower) };
         let mut item = name;
         item.extend_from_slice(&rr.rtype.to_be_bytes());
         item.extend_from_slice(&rr.class.to_be_bytes());
@@ -356,14 +364,45 @@ fn ref_octets(s: &SigF, rrs: &[RawRR], open_lower: bool) -> Option<Vec<u8>> {
         item.extend_from_slice(&rd);
         items.push((rd, item));
     }
-    // §6.3: RDATA as left-justified unsigned octet sequences; absence of an
-    // octet sorts before a zero octet == slice order of [u8].
-    items.sort();
-    items.dedup();
-    for (_, it) in items {
-        out.extend_from_slice(&it);
+    Some((out, items))
+}
+
+/// When the library's octets are not the RFC ones: find out which deviation
+/// from the construction reproduces them (keeps violation classes narrow and
+/// the report useful). `test` says whether candidate octets are the library's.
+fn diagnose(s: &SigF, rrs: &[RawRR], open_lower: bool, test: &dyn Fn(&[u8]) -> bool) -> String {
+    for no_lower in [false, true] {
+        for keep_dups in [false, true] {
+            let Some((prefix, mut items)) = ref_parts(s, rrs, open_lower, no_lower) else { continue };
+            items.sort();
+            if !keep_dups {
+                items.dedup();
+            }
+            for p in perms(items.len()) {
+                let mut o = prefix.clone();
+                for &i in &p {
+                    o.extend_from_slice(&items[i].1);
+                }
+                if test(&o) {
+                    let mut v = Vec::new();
+                    if keep_dups && items.windows(2).any(|w| w[0] == w[1]) {
+                        v.push("duplicate-RRs-kept");
+                    }
+                    if no_lower {
+                        v.push("rdata-names-not-lower-cased");
+                    }
+                    if p.windows(2).any(|w| w[0] > w[1]) {
+                        v.push("RRs-not-in-canonical-order");
+                    }
+                    if v.is_empty() {
+                        v.push("same-octets?");
+                    }
+                    return v.join("+");
+                }
+            }
+        }
     }
-    Some(out)
+    "other".into()
 }
 
 /// true when all RRs have the same owner (case-insensitively), type, class.
@@ -636,7 +675,6 @@ struct KeyMat {
     tag_file: u16,
     owner_file: Vec<Vec<u8>>,
     flags: u16,
-    proto: u8,
     pubkey: Vec<u8>,
     /// DNSKEY RDATA composed by hand from the hand-decoded fields
     rdata: Vec<u8>,
@@ -683,7 +721,7 @@ fn load_key(alg: u8, tag: u16, can_sign: bool) -> KeyMat {
             signers.push(SigningKey::new(lname(&labels(sn)), flags, kp));
         }
     }
-    KeyMat { alg, tag_file: tag, owner_file, flags, proto, pubkey, rdata, dnskey, signers, ds_text }
+    KeyMat { alg, tag_file: tag, owner_file, flags, pubkey, rdata, dnskey, signers, ds_text }
 }
 
 // ===================================================================
@@ -811,10 +849,10 @@ fn type_menu(quick: bool) -> Vec<TypeSpec> {
     );
     let svcb = |_: ()| -> Vec<Vec<F>> {
         vec![
-            vec![fb(&cat(&[&[0, 1], &nw("svc.z")]))],
-            vec![fb(&cat(&[&[0, 1], &nw("SVC.Z")]))],
-            vec![fb(&cat(&[&[0, 0], &nw("ab.z")]))],
-            vec![fb(&cat(&[&[0, 1], &nw("svc.z"), &[0, 1, 0, 3, 2, b'h', b'2']]))],
+            vec![fb(&cat(&[&[0, 1], &nw("b.z")]))],
+            vec![fb(&cat(&[&[0, 1], &nw("B.Z")]))],
+            vec![fb(&cat(&[&[0, 1], &nw("ab.z")]))],
+            vec![fb(&cat(&[&[0, 1], &nw("b.z"), &[0, 1, 0, 3, 2, b'h', b'2']]))],
         ]
     };
     add(64, "SVCB", vec![L::Rest], svcb(()), false);
@@ -984,6 +1022,7 @@ struct Env {
     keys: Vec<KeyMat>,
     times: Vec<(u32, u32, Period)>,
     verbose: bool,
+    quick: bool,
 }
 
 #[derive(Default)]
@@ -1022,7 +1061,7 @@ struct Case {
 
 impl Case {
     fn json(&self, env: &Env) -> Value {
-        json!({"part": "sign", "type": env.types[self.ti].mn, "ti": self.ti, "seq": self.seq, "oi": self.oi, "oc": self.oc, "ttl": self.ttl,
+        json!({"part": "sign", "tier": if env.quick { "quick" } else { "thorough" }, "type": env.types[self.ti].mn, "ti": self.ti, "seq": self.seq, "oi": self.oi, "oc": self.oc, "ttl": self.ttl,
                "tm": self.tm, "si": self.si, "class": self.class, "ki": self.ki, "alg": env.keys[self.ki].alg, "entry": self.entry,
                "owner": OWNERS[self.oi], "inception": env.times[self.tm].0, "expiration": env.times[self.tm].1})
     }
@@ -1065,27 +1104,6 @@ fn entry_name(e: u8) -> &'static str {
         1 => "sign_rrset",
         2 => "sorted+sign_sorted_rrset_in",
         _ => "sign_sorted_zone_records",
-    }
-}
-
-/// Why the library and the RFC construction may legitimately be expected to
-/// differ for this input (used to keep violation classes narrow).
-fn cause_of(spec: &TypeSpec, rrs: &[RawRR]) -> String {
-    let mut canon: Vec<Vec<u8>> = rrs.iter().map(|r| r.rdata_canon(false)).collect();
-    let n = canon.len();
-    canon.sort();
-    canon.dedup();
-    let mut v = Vec::new();
-    if canon.len() != n {
-        v.push("input-has-duplicate-RRs");
-    }
-    if spec.lib_unknown_listed && rrs.iter().any(|r| r.has_upper_rdata_name()) {
-        v.push("RFC4034-6.2-listed-type-without-library-type");
-    }
-    if v.is_empty() {
-        "-".into()
-    } else {
-        v.join("+")
     }
 }
 
@@ -1145,12 +1163,26 @@ fn sign_case(env: &Env, c: &Case, l: &mut Local) -> Option<Signed> {
         }
     };
     let apex = lname(&labels("z"));
-    let res = guard(|| -> Result<Option<Record<LName, LSig>>, String> {
+    // what the signer pipeline publishes next to the RRSIG: for sign_rrset the
+    // records as given; for the SortedRecords pipelines the contents of the
+    // collection (it removes what it considers duplicates)
+    let published_of = |sorted: &SortedRecords<LName, ZData>| -> Vec<(Vec<Vec<u8>>, u16, u32, Vec<u8>)> {
+        sorted
+            .iter()
+            .map(|r| {
+                let mut rd = Vec::new();
+                r.data().compose_rdata(&mut rd).expect("vec");
+                (name_labels(r.owner()), r.class().to_int(), r.ttl().as_secs(), rd)
+            })
+            .collect()
+    };
+    type Pubd = Vec<(Vec<Vec<u8>>, u16, u32, Vec<u8>)>;
+    let res = guard(|| -> Result<(Option<Record<LName, LSig>>, Option<Pubd>), String> {
         let (i, e) = (Timestamp::from(inc), Timestamp::from(exp));
         match c.entry {
             1 => {
                 let rrset = Rrset::new_from_owned(&zrecs).map_err(|e| format!("{e:?}"))?;
-                sign_rrset(skey, &rrset, i, e).map(Some).map_err(|e| format!("{e:?}"))
+                sign_rrset(skey, &rrset, i, e).map(|r| (Some(r), None)).map_err(|e| format!("{e:?}"))
             }
             2 => {
                 let sorted: SortedRecords<LName, ZData> = SortedRecords::from(zrecs.clone());
@@ -1159,7 +1191,8 @@ fn sign_case(env: &Env, c: &Case, l: &mut Local) -> Option<Signed> {
                     return Err(format!("SortedRecords split one RRset into {}", sets.len()));
                 }
                 let mut scratch = Vec::new();
-                sign_sorted_rrset_in(skey, &sets[0], i, e, &mut scratch).map(Some).map_err(|e| format!("{e:?}"))
+                let p = published_of(&sorted);
+                sign_sorted_rrset_in(skey, &sets[0], i, e, &mut scratch).map(|r| (Some(r), Some(p))).map_err(|e| format!("{e:?}"))
             }
             _ => {
                 let sorted: SortedRecords<LName, ZData> = SortedRecords::from(zrecs.clone());
@@ -1168,7 +1201,7 @@ fn sign_case(env: &Env, c: &Case, l: &mut Local) -> Option<Signed> {
                 if v.len() > 1 {
                     return Err(format!("{} RRSIGs for one RRset and one key", v.len()));
                 }
-                Ok(v.pop())
+                Ok((v.pop(), Some(published_of(&sorted))))
             }
         }
     });
@@ -1194,12 +1227,43 @@ fn sign_case(env: &Env, c: &Case, l: &mut Local) -> Option<Signed> {
             );
             return None;
         }
-        Ok(Ok(None)) => {
+        Ok(Ok((None, _))) => {
             l.c("signer:zone-walk-skipped-rrset");
             return None;
         }
-        Ok(Ok(Some(r))) => r,
+        Ok(Ok((Some(r), p))) => (r, p),
     };
+    let (rec, published) = rec;
+    let input_canon: Vec<Vec<u8>> = {
+        let mut v: Vec<Vec<u8>> = rrs.iter().map(|r| r.rdata_canon(false)).collect();
+        v.sort();
+        v.dedup();
+        v
+    };
+    let rrs: Vec<RawRR> = match published {
+        None => rrs,
+        Some(p) => p
+            .into_iter()
+            .map(|(owner, class, ttl, rd)| RawRR { owner, rtype: spec.rtype, class, ttl, fields: split_rdata(&spec.layout, &rd).expect("library RDATA follows the layout") })
+            .collect(),
+    };
+    {
+        let mut v: Vec<Vec<u8>> = rrs.iter().map(|r| r.rdata_canon(false)).collect();
+        v.sort();
+        v.dedup();
+        if v.len() < input_canon.len() {
+            // not judged here (C12 is about what is signed verifying)
+            l.c("sorted-records:dropped-a-record-that-is-distinct-in-canonical-form");
+        }
+        if v.iter().any(|x| !input_canon.contains(x)) {
+            env.ctx.violation(
+                &format!("C12|{en}|published-rrset|record-not-in-input"),
+                &format!("SortedRecords holds a {} record that was not put in", spec.mn),
+                c.json(env),
+            );
+            return None;
+        }
+    }
     l.c(&format!("signer:signed:{en}"));
     if period != Period::Valid {
         l.c(&format!("signer:period-{period:?}-signed"));
@@ -1267,10 +1331,20 @@ fn sign_case(env: &Env, c: &Case, l: &mut Local) -> Option<Signed> {
     }
     let good: Vec<Vec<u8>> = refs.iter().filter(|r| ring_verify(key.alg, &key.pubkey, r, &sig.sig)).cloned().collect();
     if good.is_empty() {
+        let d = diagnose(&sig, &rrs, false, &|o| ring_verify(key.alg, &key.pubkey, o, &sig.sig));
+        let class = if d.contains("duplicate-RRs-kept") {
+            // other deviations on top of kept duplicates show up by themselves
+            // in the duplicate-free cases
+            "C12|signer|signed-octets-not-RFC4034-3.1.8.1|duplicate-RRs-kept".to_string()
+        } else if spec.lib_unknown_listed && d == "rdata-names-not-lower-cased" {
+            format!("C12|signer|signed-octets-not-RFC4034-3.1.8.1|RFC4034-6.2-listed-type-without-library-type|{d}")
+        } else {
+            format!("C12|signer|signed-octets-not-RFC4034-3.1.8.1|type={}|{d}", spec.mn)
+        };
         env.ctx.violation(
-            &format!("C12|{en}|signature-not-over-RFC4034-3.1.8.1-octets|{}", cause_of(spec, &rrs)),
+            &class,
             &format!(
-                "the signature made for {} {:?} at {} does not verify (ring, directly) over the independently constructed signed data {}",
+                "{en}: the signature made for {} {:?} at {} does not verify (ring, directly) over the independently constructed signed data {}; diagnosis: {d}",
                 spec.mn,
                 rrs.iter().map(|r| hex(&r.rdata_plain())).collect::<Vec<_>>(),
                 name_text(&rrs[0].owner),
@@ -1454,7 +1528,6 @@ fn lib_validate(rrs: &[RawRR], sig: &SigF, form: Form, dnskey: &Dnskey<Bytes>) -
 fn check_transforms(env: &Env, c: &Case, s: &Signed, l: &mut Local) {
     let spec = &env.types[c.ti];
     let key = &env.keys[c.ki];
-    let cause = cause_of(spec, &s.rrs);
     for (label, rrs_t, sig_t, form) in transforms(s) {
         l.evals += 1;
         l.c(&format!("transform:{label}"));
@@ -1483,11 +1556,18 @@ fn check_transforms(env: &Env, c: &Case, s: &Signed, l: &mut Local) {
             Ok(Ok(o)) => o,
         };
         let replay = || json!({"part": "transform", "case": c.json(env), "transform": label, "rrs": rrs_t.iter().map(|r| r.json()).collect::<Vec<_>>(), "rrsig": sig_t.json()});
-        if !s.refs.contains(&out.octets) {
+        let octets_ok = s.refs.contains(&out.octets);
+        if !octets_ok {
+            let d = diagnose(&sig_t, &rrs_t, open_lower, &|o| o == &out.octets[..]);
+            let class = if spec.lib_unknown_listed && d == "rdata-names-not-lower-cased" {
+                format!("C12|signed_data|octets-not-RFC4034-3.1.8.1|RFC4034-6.2-listed-type-without-library-type|{d}")
+            } else {
+                format!("C12|signed_data|octets-not-RFC4034-3.1.8.1|type={}|{d}", spec.mn)
+            };
             env.ctx.violation(
-                &format!("C12|signed_data|{label}|form={form:?}|octets-differ-from-RFC4034-3.1.8.1|{cause}"),
+                &class,
                 &format!(
-                    "signed_data for {} at {} after '{label}' = {} but the independent construction gives {}",
+                    "signed_data for {} at {} after '{label}' (records as {form:?}) = {} but the independent construction gives {}; diagnosis: {d}",
                     spec.mn,
                     name_text(&rrs_t[0].owner),
                     hex(&out.octets),
@@ -1497,13 +1577,25 @@ fn check_transforms(env: &Env, c: &Case, s: &Signed, l: &mut Local) {
             );
         }
         if let Err(e) = &out.verify {
-            env.ctx.violation(
-                &format!("C12|verify_signed_data|{label}|form={form:?}|legitimate-transformation-does-not-verify|{cause}"),
-                &format!("verify_signed_data = Err({e}) for {} at {} after the legitimate transformation '{label}'", spec.mn, name_text(&rrs_t[0].owner)),
-                replay(),
-            );
+            // a consequence of the octets when those are already wrong
+            if octets_ok {
+                env.ctx.violation(
+                    &format!("C12|verify_signed_data|type={}|correct-octets-but-legitimate-transformation-does-not-verify", spec.mn),
+                    &format!("verify_signed_data = Err({e}) for {} at {} after the legitimate transformation '{label}' ({form:?}) although signed_data produced the right octets", spec.mn, name_text(&rrs_t[0].owner)),
+                    replay(),
+                );
+            } else {
+                l.c("verify:fails-because-signed_data-octets-differ");
+            }
         } else {
             l.c("verify:ok-after-legit-transform");
+            if !octets_ok {
+                env.ctx.violation(
+                    &format!("C12|verify_signed_data|type={}|verified-over-octets-that-are-not-RFC4034", spec.mn),
+                    &format!("verify_signed_data = Ok over octets that differ from the independent construction after '{label}'"),
+                    replay(),
+                );
+            }
         }
         let want = ref_closest_encloser(&sig_t, &rrs_t[0].owner);
         if out.wce != want {
@@ -1931,7 +2023,7 @@ fn build_env(ctx: Arc<Ctx>, quick: bool) -> (Env, Vec<KeyMat>) {
             all_keys.push(load_key(a, t, false));
         }
     }
-    let env = Env { ctx, stats: Stats::new(), types: type_menu(quick), keys, times: time_menu(quick), verbose: false };
+    let env = Env { ctx, stats: Stats::new(), types: type_menu(quick), keys, times: time_menu(quick), verbose: false, quick };
     (env, all_keys)
 }
 
